@@ -28,13 +28,10 @@ coq: coqmk
 coq/theories/%.vo: coqmk
 	@cd coq && timeout 7200 $(MAKE) -f Makefile.coq -j8 --no-print-directory theories/$*.vo
 
-ocaml/mdrv_%: coq/extract/Extract_%.v ocaml/drv_%.ml ocaml/util.ml ocaml/jvtext.ml ocaml/mdrv.ml $(wildcard coq/theories/*.v)
-	@$(MAKE) -s coqmk
-	@cd coq && rm -f extract/Extract_$*.vo && timeout 7200 $(MAKE) -f Makefile.coq -j8 --no-print-directory extract/Extract_$*.vo > /dev/null
-	@mkdir -p ocaml/_b_$* && mv coq/model_$*.ml ocaml/_b_$*/model.ml && mv coq/model_$*.mli ocaml/_b_$*/model.mli
-	@cp ocaml/util.ml ocaml/jvtext.ml ocaml/drv_$*.ml ocaml/mdrv.ml ocaml/_b_$*/
-	@cd ocaml/_b_$* && JV=$$(grep -q Jvtext drv_$*.ml && echo jvtext.ml); \
-	  ocamlfind ocamlopt -w -a -inline 100 model.mli model.ml util.ml $$JV drv_$*.ml mdrv.ml -o ../mdrv_$*
+.PHONY: FORCE
+FORCE:
+ocaml/mdrv_%: FORCE
+	@sh tools/build_mdrv.sh $*
 
 clean:
 	rm -rf build ocaml/_b_* ocaml/mdrv_* coq/Makefile.coq* coq/_CoqProject coq/theories/*.vo* coq/theories/*.glob coq/theories/.*.aux coq/extract/*.vo* coq/extract/*.glob coq/extract/.*.aux coq/.*.d
